@@ -148,10 +148,85 @@ fn stage(i: &Input, c: &mut Case) -> Result<(), String> {
     Ok(())
 }
 
-pub const STAGES: &[Stage] = &[Stage { name: "rollup", f: stage }];
+/// the same relation when buffering is interrupted: end-of-stream closing off, the source reports a temporary end of file at tag
+/// boundaries and next() is called again. Every pause leaves a buffered master half collected; what is finally emitted must still be
+/// the flat stream rolled up. (With closing off, a buffered master that is still open at the very end never becomes a Full item: the
+/// unrolled buffered parse may then stop short, right before that master's Start.)
+fn stage_interrupted(i: &Input, c: &mut Case) -> Result<(), String> {
+    let mut t = Tape::new(i.tape());
+    let m = gen_mixed(&mut t, MixOpts { weights: [4, 3, 4, 0, 0, 1], ..MixOpts::default() });
+    let masters = m.spec.table().masters();
+    if masters.is_empty() {
+        c.skipped = true;
+        return Ok(());
+    }
+    let tolerate = if t.chance(2, 3) { 0 } else { t.below(8) as u8 };
+    let capacity = if t.chance(1, 3) { Some(*t.pick(&[16usize, 24, 33, 64])) } else { None };
+    let (max_size, _) = safe_max_size(&m.bytes, MaxSize::Untouched);
+    let mut buffered: Vec<u64> = Vec::new();
+    for id in &masters {
+        if t.chance(1, 2) {
+            buffered.push(*id);
+        }
+    }
+    if buffered.is_empty() {
+        buffered.push(masters[t.below(masters.len())]);
+    }
+    let flat_cfg = ReadCfg { tolerate, max_size, eof_close: false, ..ReadCfg::default() };
+    let cfg = ReadCfg { buffered: buffered.clone(), capacity, ..flat_cfg.clone() };
+    c.label(m.origin.label());
+    with_spec!(m.spec, T => {
+        let p = read_all::<T>(&m.bytes, &flat_cfg);
+        if let Some(Obs::Panic(msg)) = p.last() {
+            return Err(format!("unbuffered parse panicked: {}\n  input: {}", msg, describe_mixed(&m)));
+        }
+        let bounds = super::c04::tag_boundaries(&p, m.bytes.len());
+        let (steps, pauses) = super::c04::gen_pause_script(&mut t, &bounds);
+        c.label_if(pauses > 0, "has_pause");
+        c.key(&(&m.bytes, &format!("{:?}", steps), capacity, tolerate, &buffered));
+        c.sample_with(|| format!("{} | script {:?} | cfg {}", describe_mixed(&m), &steps[..steps.len().min(30)], cfg.render()));
+        let (f, nones) = super::c04::read_paused::<T>(&m.bytes, steps.clone(), &cfg)?;
+        let ctx = |e: String| format!("{}\n  buffered set {:x?}\n  script: {:?}\n  buffered parse (interrupted): {}\n  unbuffered parse:             {}\n  input: {}\n  cfg: {}", e, buffered, &steps[..steps.len().min(64)], render_obs(&f), render_obs(&p), describe_mixed(&m), cfg.render());
+        match f.last() {
+            Some(Obs::Panic(msg)) => return Err(ctx(format!("buffered parse panicked: {}", msg))),
+            Some(Obs::Runaway(n)) => return Err(ctx(format!("buffered parse did not end within {} calls", n))),
+            _ => {}
+        }
+        let p_items: Vec<Flat> = items_of(&p);
+        let un: Vec<Flat> = unroll(&items_of(&f));
+        let fulls = f.iter().filter(|o| matches!(o, Obs::Item(Flat::Full(..), _))).count();
+        if un.len() > p_items.len() {
+            return Err(ctx(format!("unrolled buffered parse has {} items, the unbuffered parse only {}", un.len(), p_items.len())));
+        }
+        for (k, it) in un.iter().enumerate() {
+            if *it != p_items[k] {
+                return Err(ctx(format!("unrolled item {} is {:?}, the unbuffered parse has {:?}", k, it, p_items[k])));
+            }
+        }
+        if un.len() < p_items.len() {
+            // what is missing starts with a buffered master that could not be completed (its End never came, or an error lies inside it)
+            match &p_items[un.len()] {
+                Flat::Start(id) if buffered.contains(id) => {}
+                other => return Err(ctx(format!("the buffered parse stops before {:?} (item {}), which is not the Start of a buffered master", other, un.len()))),
+            }
+        }
+        if first_err(&p).is_none() && first_err(&f).is_some() {
+            return Err(ctx(format!("the unbuffered parse ends cleanly but the interrupted buffered parse ends in {}", first_err(&f).unwrap().short())));
+        }
+        c.checks += un.len() as u64 + 1;
+        c.nontrivial = pauses > 0 && fulls > 0;
+        c.label_if(pauses > 0 && fulls > 0, "full_item_collected_across_a_pause");
+        c.label_if(nones > 1, "none_then_more_items");
+        Ok(())
+    })
+}
+
+pub const STAGES: &[Stage] = &[Stage { name: "rollup", f: stage }, Stage { name: "rollup_interrupted", f: stage_interrupted }];
 
 pub fn run(rc: &mut RunCtx) {
     rc.run_pt(STAGES[0], rc.pick(96_000, 500_000), (96, 500));
+    rc.run_pt(STAGES[1], rc.pick(160_000, 800_000), (96, 500));
+    rc.require_label("rollup_interrupted", "full_item_collected_across_a_pause", 20_000);
     for l in ["full_contains_master", "error_inside_buffered_master", "unknown_size_buffered_master", "all_subsets"] {
         rc.require_label("rollup", l, 10_000);
     }
